@@ -43,6 +43,8 @@ def build_inputs(rng, tmp, nrec, with_reads=False):
             # a few read names with multi-byte UTF-8 characters: characters != bytes in the plain file
             name = ("Zo\u00eb_q%d" if rng.random() < 0.02 else "q%d") % k
             lines.append(gen.walk_record(rng, g, w, name, tags=tags))
+    if rng.random() < 0.7:
+        lines = align_records(lines)
     text = "".join(l + "\n" for l in lines)
     gtext = g.text()
     p = {"gaf": os.path.join(tmp, "a.gaf"), "gafz": os.path.join(tmp, "b.gaf.gz"), "gfa": os.path.join(tmp, "g.gfa"), "gfaz": os.path.join(tmp, "h.gfa.gz")}
@@ -59,6 +61,33 @@ def build_inputs(rng, tmp, nrec, with_reads=False):
         gen.write_text(p["fa"], "".join(reads))
     nblocks = count_bgzf_blocks(p["gafz"])
     return g, lines, p, nblocks
+
+
+def align_records(lines):
+    """pad `zz:Z:` values so that some records START exactly at an uncompressed offset that is a multiple of 65536 (a natural read
+    chunk) or of 65280 (the payload of a full BGZF block): boundaries that random line lengths hit only once in a hundred files"""
+    total = sum(len(l.encode()) + 1 for l in lines)
+    targets = sorted({k * 65536 for k in range(1, total // 65536 + 1)} | {k * 65280 for k in range(1, total // 65280 + 1)})
+    out = list(lines)
+    for B in targets:
+        pos, i_best = 0, None
+        for i, l in enumerate(out):
+            pos += len(l.encode()) + 1
+            if pos <= B:
+                i_best, end_best = i, pos
+            else:
+                break
+        if i_best is None or i_best + 1 >= len(out):
+            continue
+        delta = B - end_best
+        f = out[i_best].split("\t")
+        for j, x in enumerate(f):
+            if x.startswith("zz:Z:"):
+                f[j] = x + "p" * delta
+                out[i_best] = "\t".join(f)
+                gen.QUIRKS["record-aligned-at-%d" % (65536 if B % 65536 == 0 else 65280)] = gen.QUIRKS.get("record-aligned-at-%d" % (65536 if B % 65536 == 0 else 65280), 0) + 1
+                break
+    return out
 
 
 def count_bgzf_blocks(path):
